@@ -294,8 +294,22 @@ def api_calls():
         c.n += 1
         return t.compute(3 if c.k is None else 5, progress_type=pt)     # 5 > len(pt): fails midway
 
+    def pt_tebd_multithread(c, pt):
+        # real ThreadPoolExecutor of the back-end: its worker threads must be gone when compute() returns or raises
+        chain = oq.SystemChain(hilbert_space_dimensions=[2, 2, 2, 2])
+        for s_ in range(4):
+            chain.add_site_hamiltonian(site=s_, hamiltonian=0.5 * M.SX)
+        for s_ in range(3):
+            chain.add_nn_hamiltonian(site=s_, hamiltonian_l=0.3 * M.SZ, hamiltonian_r=M.SZ)
+        t = oq.PtTebd(oq.AugmentedMPS([M.RHO_GEN2, M.RHO_PLUS, M.RHO_GEN2, M.RHO_PLUS]), chain, [P["pt"], None, None, None],
+                      oq.PtTebdParameters(dt=0.1, order=2, epsrel=1e-7), dynamics_sites=[0],
+                      backend_config={"parallel": "multithread"})
+        c.n += 1
+        return t.compute(2 if c.k is None else 5, progress_type=pt)
+
     return {f.__name__: f for f in (compute_dynamics, compute_dynamics_with_field, state_gradient, tempo,
-                                    mean_field_tempo, pt_tempo, gibbs_tempo, compute_correlations, pt_tebd)}
+                                    mean_field_tempo, pt_tempo, gibbs_tempo, compute_correlations, pt_tebd,
+                                    pt_tebd_multithread)}
 
 
 def structural_calls():
@@ -348,6 +362,7 @@ def fault_case(args):
     old_out = sys.stdout
     sys.stdout = io.StringIO()
     raised = None
+    before = set(threading.enumerate())
     try:
         calls[api](c, ptype)
     except BaseException as ex:  # noqa
@@ -356,7 +371,13 @@ def fault_case(args):
         sys.stdout = old_out
         U.Timer = saved
     armed = sum(1 for t in RegTimer.registry if t.armed)
-    return {"raised": raised, "armed": armed, "timers": len(RegTimer.registry), "count": c.n}
+    import time as _time
+    left = [t for t in threading.enumerate() if t not in before and t.is_alive()]
+    if left:
+        _time.sleep(0.05)       # threads that are merely finishing are not a leak
+        left = [t for t in threading.enumerate() if t not in before and t.is_alive()]
+    return {"raised": raised, "armed": armed, "timers": len(RegTimer.registry), "count": c.n,
+            "threads_left": [t.name for t in left]}
 
 
 def fault_part(tier, seed):
@@ -386,6 +407,9 @@ def fault_part(tier, seed):
     for api in structs:
         for pt in ptypes:
             jobs.append((api, pt, 1))
+    for api in apis:
+        for pt in ptypes:
+            jobs.append((api, pt, None))       # undisturbed call: nothing may be left behind after a normal return either
     res = pmap(fault_case, jobs, seed=seed)
     vio = []
     hist = {}
@@ -401,8 +425,13 @@ def fault_part(tier, seed):
                                  f"{j[0]}(progress_type={j[1]!r}): exception ({r['raised']}) at user-callable invocation {j[2]} "
                                  f"propagated and left {r['armed']} progress timer(s) armed",
                                  {"part": "fault", "api": j[0], "ptype": j[1], "k": j[2]}))
-        elif r["raised"] is None and j[0] not in ("pt_tebd",):
-            pass
+        if r.get("threads_left"):
+            pt = "default" if j[1] is None else j[1]
+            how = "after-exception" if r["raised"] else "after-return"
+            vio.append(Violation(f"fault|{j[0]}|progress={pt}|threads-left-alive-{how}",
+                                 f"{j[0]}(progress_type={j[1]!r}): {len(r['threads_left'])} thread(s) started by the call still "
+                                 f"alive {how}: {r['threads_left'][:3]}",
+                                 {"part": "fault", "api": j[0], "ptype": j[1], "k": j[2]}))
     return vio, hist, len(jobs), counts
 
 
@@ -481,4 +510,9 @@ def replay(rp):
         return {"obs": obs, "violation": f"schedule|{rp['driver']}|{key}" if v else None}
     r = fault_case((rp["api"], rp["ptype"], rp["k"]))
     pt = "default" if rp["ptype"] is None else rp["ptype"]
-    return {"obs": r, "violation": f"fault|{rp['api']}|progress={pt}|timer-left-armed-after-exception" if r["armed"] else None}
+    v = None
+    if r["armed"]:
+        v = f"fault|{rp['api']}|progress={pt}|timer-left-armed-after-exception"
+    elif r.get("threads_left"):
+        v = f"fault|{rp['api']}|progress={pt}|threads-left-alive-" + ("after-exception" if r["raised"] else "after-return")
+    return {"obs": r, "violation": v}
